@@ -9,7 +9,7 @@
    no triangle is degenerate, no directed edge is used twice and the reverse of every used directed edge is
    used too — i.e. a closed (boundaryless, 2-manifold-edged), consistently oriented surface. *)
 From PF Require Import Gen.Closed Gen.ClosedProofs Gen.FamilyProofs Gen.Sphere Gen.Hemisphere Gen.Cylinder Gen.Cube
-  Gen.CylinderProofs Gen.SphereProofs Gen.CubeProofs Gen.CylinderGeom Gen.SphereGeom Gen.CylinderVolume Gen.CylinderMono Gen.SphereVolume Gen.HemiVolume Gen.CubeClasses Gen.VolumeLimits Gen.GenProofs.
+  Gen.CylinderProofs Gen.SphereProofs Gen.CubeProofs Gen.CylinderGeom Gen.SphereGeom Gen.CylinderVolume Gen.CylinderMono Gen.SphereVolume Gen.HemiVolume Gen.CubeClasses Gen.VolumeLimits Gen.CubeTableProofs Gen.GenProofs.
 From Coq Require Import Reals.
 Open Scope N_scope.
 
@@ -379,6 +379,33 @@ Example bipyramid_volume : rvol6 (sph_trisR 2 3 1) / 6 = sin (2 * PI / 3).
 Proof. exact VolumeLimits.bipyramid_volume. Qed.
 Example tetra_hemi_volume : rvol6 (hemi_trisR 2 3 1) / 6 = sin (2 * PI / 3) / 2.
 Proof. exact VolumeLimits.tetra_hemi_volume. Qed.
+
+(* ---------- round 4, binding T: the welded box's triangle table as TRANSLATED from cube.go on every run ----------
+   [cube_table] = coq/gen/CubeTable.v's cubeVertIndices (tools/tab2coq, regenerated from the repository under test before
+   this file is compiled).  Proved by evaluation: independent of the order of the twelve triangles in the source. *)
+Theorem cube_table_wf : forallb (fun z => (0 <=? z)%Z) PFGen.CubeTable.cubeVertIndices = true /\ wf_idx cubeW_nverts cube_table.
+Proof. exact CubeTableProofs.cube_table_wf. Qed.
+Print Assumptions cube_table_wf.
+
+Theorem cube_table_closed : closed_idx cubeW_cls cube_table.
+Proof. exact CubeTableProofs.cube_table_closed. Qed.
+Print Assumptions cube_table_closed.
+
+Theorem cube_table_volume : forall w h d : R,
+  rvol6 (tri_pos (cubeW_posR (w / 2) (h / 2) (d / 2)) cube_table) / 6 = w * h * d.
+Proof. exact CubeTableProofs.cube_table_volume. Qed.
+Print Assumptions cube_table_volume.
+
+Theorem cube_table_outward : forall hw hh hd : R, 0 < hw -> 0 < hh -> 0 < hd ->
+  Forall (rfaces_away rzero) (tri_pos (cubeW_posR hw hh hd) cube_table) /\
+  normals_outer (cubeW_posR hw hh hd) (cubeW_posR hw hh hd) cube_table.
+Proof. exact CubeTableProofs.cube_table_outward. Qed.
+Print Assumptions cube_table_outward.
+
+(* the translated table and the hand model [cubeW_idx] are the same set of oriented triangles *)
+Theorem cube_table_same_surface : canon_tris cube_table = canon_tris cubeW_idx.
+Proof. exact CubeTableProofs.cube_table_same_surface. Qed.
+Print Assumptions cube_table_same_surface.
 
 (* ---------- coincidence classes of the boxes derived from the real positions ---------- *)
 (* two of the 24 corners of the six-quad box are the same point exactly when cubeQ_cls merges them; the welded
